@@ -5,11 +5,27 @@ End to end on the real mloda: generated root groups (one table each) + Links + a
 the rows it receives.  Oracle: rel_join evaluated in Coq (vm_compute) on the same source tables with the Link's join type,
 key columns and left/right roles; for several links every admissible application order is computed in Coq and the
 observation must be one of them (for inner-join trees they coincide - theorem).
-  two-way   all join types x equal / different key names x framework of each source and of the consumer x PRNG tables
-            with unique non-null keys (overlapping / disjoint); duplicate and null keys are C12's subject
-  n-way     chains and stars of 3-4 sources with inner links (order independence), same key name
-Known-defect domains are decidable predicates on the request (join type, key names, framework relation); inside them
-the observation must equal the recorded defect class or the spec, everything else is a violation.
+  two-way   base      all join types x equal / different key name x framework of each source and of the consumer x PRNG
+                      tables with unique non-null single-column keys (overlapping / disjoint)
+            multikey  2- and 3-column keys x name class (equal, all different / mixed, alphabetical order of the names
+                      permuting both sides equally / differently) x INNER, LEFT, OUTER (RIGHT sampled) x frameworks;
+                      key tuples over a 3-value domain with partial overlap, chosen so that EVERY positional mis-pairing
+                      of the key columns changes the set of matching row pairs
+            data      duplicate-key (1:n, n:m, duplicated unmatched rows) and null-key (null component present on both
+                      sides) tables for PyArrow / Pandas sources, INNER / LEFT, equal key names, arity 1-2
+            orient    the same two tables linked as Link(A,B) and as Link(B,A), consumer on each side's framework
+  n-way     chains and stars of 3-4 sources with inner links (order independence), same key name;
+            three-source stars anchored at the left table with INNER/LEFT link mixes (C05alg: inner_star_comm,
+            left_star_comm; the mixed star is evaluated per instance), 1- and 2-column keys
+Known-defect domains are decidable predicates on the request (join type, key names, key arity, framework relation, null
+keys).  Where the recorded defect is a function of the spec result (MODEL_CHK: PyArrow key-column handling, Pandas null
+keys, LEFT/RIGHT roles exchanged) or a specific error (RAISE_PAT) the observation must equal that defect model (evaluated
+in Coq) or the spec, everything else is a violation; in the remaining domains (differently named keys with the consumer
+on the right framework, PythonDict LEFT/OUTER on differently named keys, multi-way across frameworks) any failure counts
+as the finding.
+Not generated: duplicate / null keys on PythonDictFramework sources (engine deviations are C12's findings); null keys on
+the Pandas side of a Pandas/PyArrow pair (a Pandas integer column with nulls is float64; Acero refuses int64 = double keys:
+the run raises ArrowInvalid "Incompatible data types for corresponding join field keys").
 """
 from __future__ import annotations
 
@@ -17,7 +33,7 @@ import itertools
 import json
 import logging
 import random
-from typing import Any, Dict, List, Optional, Tuple
+from typing import Any, Dict, List, Optional, Sequence, Tuple
 
 from lib import vlib
 from lib.vlib import cq_list, cq_nat, cq_str, cq_z
@@ -30,33 +46,98 @@ REQ = ["MV.Spec.Rel"]
 CF = ["PyArrowTable", "PandasDataFrame", "PythonDictFramework"]
 
 EXTRA = """
-(* tables, links (jt, left table index, right table index, left keys, right keys), application orders, observed rows *)
+(* tables, links (jt, left table index, right table index, left keys, right keys), application orders, observed rows.
+   The join function is a parameter: rel_join (the specification) or one of the recorded engine deviations below. *)
+Definition joinfn := jointype -> list col -> list col -> table -> table -> table.
+Definition link := (jointype * nat * nat * list col * list col)%type.
+Definition case := ((list table * list link * list (list nat)) * table)%type.
 Definition comp := (list nat * table)%type.
 Definition find_comp (cs : list comp) (i : nat) : option comp := find (fun c => existsb (Nat.eqb i) (fst c)) cs.
-Definition apply_link (cs : list comp) (l : jointype * nat * nat * list col * list col) : list comp :=
+Definition apply_link (J : joinfn) (cs : list comp) (l : link) : list comp :=
   match l with (jt, a, b, lk, rk) =>
     match find_comp cs a, find_comp cs b with
     | Some ca, Some cb =>
       if existsb (Nat.eqb b) (fst ca) then cs
-      else (fst ca ++ fst cb, rel_join jt lk rk (snd ca) (snd cb))
+      else (fst ca ++ fst cb, J jt lk rk (snd ca) (snd cb))
            :: filter (fun c => negb (existsb (Nat.eqb a) (fst c)) && negb (existsb (Nat.eqb b) (fst c))) cs
     | _, _ => cs
     end end.
 Fixpoint number {A} (n : nat) (l : list A) : list (nat * A) := match l with [] => [] | x :: t => (n, x) :: number (S n) t end.
-Definition join_in_order (ts : list table) (ls : list (jointype * nat * nat * list col * list col)) (order : list nat) : table :=
+Definition join_in_order_with (J : joinfn) (ts : list table) (ls : list link) (order : list nat) : table :=
   let cs0 := map (fun it => ([fst it], snd it)) (number 0 ts) in
-  let cs := fold_left (fun cs i => match nth_error ls i with Some l => apply_link cs l | None => cs end) order cs0 in
+  let cs := fold_left (fun cs i => match nth_error ls i with Some l => apply_link J cs l | None => cs end) order cs0 in
   match cs with c :: _ => snd c | [] => [] end.
-Definition chk_join (c : (list table * list (jointype * nat * nat * list col * list col) * list (list nat)) * table) : bool :=
-  match c with ((ts, ls, orders), obs) => existsb (fun o => bag_eqb obs (join_in_order ts ls o)) orders end.
+Definition join_in_order := join_in_order_with rel_join.
+Definition chk_join_with (J : joinfn) (c : case) : bool :=
+  match c with ((ts, ls, orders), obs) => existsb (fun o => bag_eqb obs (join_in_order_with J ts ls o)) orders end.
+Definition chk_join (c : case) : bool := chk_join_with rel_join c.
 (* number of distinct results over the admissible orders (1 = order independent) *)
 Fixpoint count_distinct (seen : list table) (l : list table) : nat :=
   match l with [] => List.length seen | t :: r => if existsb (bag_eqb t) seen then count_distinct seen r else count_distinct (t :: seen) r end.
-Definition chk_order_independent (c : (list table * list (jointype * nat * nat * list col * list col) * list (list nat)) * table) : bool :=
+Definition chk_order_independent (c : case) : bool :=
   match c with ((ts, ls, orders), _) => Nat.eqb (count_distinct [] (map (join_in_order ts ls) orders)) 1 end.
+
+(* ---- recorded engine deviations as functions of the SPEC result ----
+   (1) PyArrow engine, several key columns, names differing at a position (C12-pyarrow-multikey-diffnames-drops-keys):
+       Acero keeps one key set - the differently named right key column is not retained and the left key column of a
+       right-only row (full outer) is filled from it.  Single-column keys take another code path (mloda_right_index). *)
+Definition drop_col (c : col) (r : row) : row := filter (fun cv => negb (String.eqb (fst cv) c)) r.
+Definition coalesce_pair (r : row) (p : col * col) : row :=
+  if String.eqb (fst p) (snd p) then r
+  else (fst p, if is_null (get (fst p) r) then get (snd p) r else get (fst p) r) :: drop_col (fst p) (drop_col (snd p) r).
+Definition arrow_multikey (lk rk : list col) (t : table) : table := map (fun r => fold_left coalesce_pair (combine lk rk) r) t.
+(* (1b) PyArrow engine, ONE differently named key, full outer (C12-pyarrow-outer-diffkey-coalesce): the right key is
+       copied to a helper column used as join key, so the right key column survives, but the left key column of a
+       right-only row is filled from it. *)
+Definition coalesce_keep (lc rc : col) (r : row) : row :=
+  (lc, if is_null (get lc r) then get rc r else get lc r) :: drop_col lc r.
+Definition arrow_join : joinfn := fun jt lk rk L R =>
+  match lk, rk, jt with
+  | _ :: _ :: _, _, _ => arrow_multikey lk rk (rel_join jt lk rk L R)
+  | [lc], [rc], JOuter => if String.eqb lc rc then rel_join jt lk rk L R else map (coalesce_keep lc rc) (rel_join jt lk rk L R)
+  | _, _, _ => rel_join jt lk rk L R
+  end.
+Definition chk_join_arrow_mk (c : case) : bool := chk_join c || chk_join_with arrow_join c.
+(* (2) Pandas engine (C12-pandas-null-keys-match): pd.merge treats a null key component as an ordinary value that is
+       equal to itself.  Model: nulls in key columns replaced by a sentinel outside the generated value range, joined by
+       the spec, sentinel mapped back to null. *)
+Definition sentinel : val := VInt (-999983)%Z.
+Definition map_cols (f : val -> val) (ks : list col) (t : table) : table :=
+  map (fun r => map (fun cv => if mem (fst cv) ks then (fst cv, f (snd cv)) else cv) r) t.
+Definition to_sent (v : val) : val := if is_null v then sentinel else v.
+Definition from_sent (v : val) : val := if val_eqb v sentinel then VNull else v.
+Definition null_match_join : joinfn := fun jt lk rk L R =>
+  map_cols from_sent (lk ++ rk) (rel_join jt lk rk (map_cols to_sent lk L) (map_cols to_sent rk R)).
+Definition chk_join_null_match (c : case) : bool := chk_join c || chk_join_with null_match_join c.
+(* (3) planner: LEFT executed as RIGHT / RIGHT executed as LEFT (C05-right-join-not-honoured,
+       C05-left-join-roles-flipped-for-right-consumer): the preserved side is the other one. *)
+Definition flip_jt (jt : jointype) : jointype := match jt with JLeft => JRight | JRight => JLeft | x => x end.
+Definition flip_join : joinfn := fun jt => rel_join (flip_jt jt).
+Definition chk_join_flipped (c : case) : bool := chk_join c || chk_join_with flip_join c.
 """
-CASE_TY = "(list table * list (jointype * nat * nat * list col * list col) * list (list nat)) * table"
+CASE_TY = "case"
 JT = {"INNER": "JInner", "LEFT": "JLeft", "RIGHT": "JRight", "OUTER": "JOuter", "APPEND": "JAppend", "UNION": "JUnion"}
+
+# known-defect domains whose recorded defect is a FUNCTION of the spec result: (checker that accepts the defect model or the
+# spec, predicate on the request saying where that is required).  Where it is required a run that raises, is rejected, or
+# hands the consumer anything else is a violation.  Outside (and in the domains not listed) any failure counts as the finding.
+def _same_names(spec: Dict[str, Any]) -> bool:
+    return all(l["li"] == l["ri"] for l in spec["links"])
+
+
+MODEL_CHK = {"C05-pyarrow-multikey-different-names-drops-right-keys": ("chk_join_arrow_mk", lambda s: True),
+             "C05-pyarrow-outer-different-key-names": ("chk_join_arrow_mk", lambda s: True),
+             "C05-pandas-null-keys-match": ("chk_join_null_match", lambda s: True),
+             "C05-right-join-not-honoured": ("chk_join_flipped", _same_names),
+             "C05-left-join-roles-flipped-for-right-consumer": ("chk_join_flipped", lambda s: True)}
+# known-defect domains whose recorded defect is a specific run-time error
+RAISE_PAT = {"C05-pydict-empty-join-raises": "Data is empty or not in expected format"}
+
+
+def strict_model(spec: Dict[str, Any], dom: Optional[str]) -> Optional[str]:
+    if dom in MODEL_CHK and MODEL_CHK[dom][1](spec):
+        return MODEL_CHK[dom][0]
+    return None
 
 
 class Cap(GateListener):
@@ -91,15 +172,177 @@ def rows_of(cols: Dict[str, List[Any]]) -> List[Dict[str, Any]]:
     return [{k: v[i] for k, v in cols.items()} for i in range(n)]
 
 
+# ------------------------------------------------------------------------------------------------------------------
+# key names
+# ------------------------------------------------------------------------------------------------------------------
+LPOOL = ["day", "region", "id", "ts", "k", "m", "zone", "code"]
+RPOOL = ["area", "date", "ref", "rts", "j", "n", "loc", "tag"]
+NAME_CLASSES = ["equal", "diff_same_perm", "diff_permuted", "mixed_same_perm", "mixed_permuted"]
+Key = Tuple[Optional[int], ...]
+
+
+def argsort(xs: Sequence[str]) -> List[int]:
+    return sorted(range(len(xs)), key=lambda i: xs[i])
+
+
+def name_class(li: Sequence[str], ri: Sequence[str]) -> str:
+    """equal | diff | for arity >= 2: {diff, mixed}_{same_perm, permuted}: are the names different at every / at some
+    position, and does sorting the names alphabetically permute the two sides in the same way."""
+    li, ri = list(li), list(ri)
+    if li == ri:
+        return "equal"
+    if len(li) == 1:
+        return "diff"
+    kind = "mixed" if any(x == y for x, y in zip(li, ri)) else "diff"
+    return kind + ("_same_perm" if argsort(li) == argsort(ri) else "_permuted")
+
+
+def gen_key_names(rng: random.Random, arity: int, cls: str) -> Tuple[List[str], List[str]]:
+    if arity == 1:
+        li = [rng.choice(LPOOL)]
+        return (li, list(li)) if cls == "equal" else (li, [rng.choice(RPOOL)])
+    for _ in range(5000):
+        li = rng.sample(LPOOL, arity)
+        if cls == "equal":
+            return li, list(li)
+        fresh = rng.sample(RPOOL, arity)
+        keep = [cls.startswith("mixed") and rng.random() < 0.5 for _ in li]
+        ri = [x if k else f for x, k, f in zip(li, keep, fresh)]
+        if name_class(li, ri) == cls:
+            return li, ri
+    raise RuntimeError(f"no key names of class {cls} / arity {arity}")
+
+
+# ------------------------------------------------------------------------------------------------------------------
+# key data
+# ------------------------------------------------------------------------------------------------------------------
+def match_pairs(ka: Sequence[Key], kb: Sequence[Key], perm: Sequence[int]) -> set:
+    """row pairs (i, j) whose keys are SQL-equal when left position p is paired with right position perm[p]."""
+    return {(i, j) for i, x in enumerate(ka) for j, y in enumerate(kb)
+            if all(x[p] is not None and x[p] == y[perm[p]] for p in range(len(perm)))}
+
+
+def pairing_sensitive(ka: Sequence[Key], kb: Sequence[Key]) -> bool:
+    n = len(ka[0])
+    ident = list(range(n))
+    good = match_pairs(ka, kb, ident)
+    return all(match_pairs(ka, kb, p) != good for p in itertools.permutations(ident) if list(p) != ident)
+
+
+def gen_key_data(rng: random.Random, arity: int, variant: str, null_sides: str = "ab") -> Tuple[List[Key], List[Key]]:
+    """unique: distinct non-null key tuples per side, partial overlap (arity 1: possibly disjoint);
+    dup: additionally a matched key repeated on the right (and possibly the left) and an unmatched left key repeated;
+    null: additionally, on both sides (null_sides "ab"; "a" / "b": on that side only, the other side gets the same key with
+          the null replaced by a value), a key with a null component and possibly an all-null key.
+    For arity >= 2 every positional mis-pairing of the key columns changes the set of matching row pairs."""
+    dom = list(range(1, 8)) if arity == 1 else [1, 2, 3]
+    universe = [tuple(t) for t in itertools.product(dom, repeat=arity)]
+    for _ in range(5000):
+        na, nb = rng.randrange(2, 6), rng.randrange(2, 6)
+        if arity == 1:
+            na, nb = rng.randrange(1, 5), rng.randrange(1, 5)
+            s = rng.randrange(0, min(na, nb) + 1)
+            if variant != "unique":
+                s = max(s, 1)
+        else:
+            s = rng.randrange(1, min(na, nb))
+        if na + nb - s > len(universe):
+            continue
+        ts = rng.sample(universe, na + nb - s)
+        shared, lo, ro = ts[:s], ts[s:na], ts[na:]
+        ka: List[Key] = list(shared + lo)
+        kb: List[Key] = list(shared + ro)
+        if variant == "dup":
+            kb.append(shared[0])
+            if rng.random() < 0.5:
+                ka.append(shared[0])
+            if lo and rng.random() < 0.7:
+                ka.append(lo[0])
+            if ro and rng.random() < 0.3:
+                kb.append(ro[0])
+        if variant == "null":
+            base = list(rng.choice(universe))
+            base[rng.randrange(arity)] = None
+            full = tuple(rng.choice(dom) if v is None else v for v in base)
+            ka.append(tuple(base) if "a" in null_sides else full)
+            kb.append(tuple(base) if "b" in null_sides else full)
+            if "a" in null_sides and rng.random() < 0.5:
+                ka.append(tuple([None] * arity))
+            if "b" in null_sides and rng.random() < 0.5:
+                kb.append(tuple([None] * arity))
+        rng.shuffle(ka)
+        rng.shuffle(kb)
+        if arity >= 2 and not pairing_sensitive(ka, kb):
+            continue
+        return ka, kb
+    raise RuntimeError("no key data")
+
+
+def data_variant(spec: Dict[str, Any]) -> str:
+    roots = [g for g in spec["groups"] if g["kind"] == "root"]
+    g = {x["name"]: x for x in roots}
+    has_null = has_dup = False
+    for l in spec["links"]:
+        for side, cols in ((l["l"], l["li"]), (l["r"], l["ri"])):
+            ks = key_tuples(g[side], cols)
+            has_null |= any(v is None for t in ks for v in t)
+            has_dup |= len(set(ks)) < len(ks)
+    return "null" if has_null else "dup" if has_dup else "unique"
+
+
+def key_tuples(group: Dict[str, Any], cols: Sequence[str]) -> List[Key]:
+    return list(zip(*[group["cols"][c] for c in cols]))
+
+
+# ------------------------------------------------------------------------------------------------------------------
+# request generators
+# ------------------------------------------------------------------------------------------------------------------
+def two_way(rng: random.Random, jt: str, li: List[str], ri: List[str], ka: List[Key], kb: List[Key], ca: str, cb: str,
+            orient: str = "AB", consumer: str = "l") -> Dict[str, Any]:
+    """Sources A = R0(a, key columns li) on ca and B = R1(b, key columns ri) on cb.  orient AB: Link(A, B); BA: Link(B, A)
+    (B is then the left table, ri the left key).  The consumer lives on the framework of the link's `consumer` side."""
+    va = rng.sample(range(0, 50), len(ka))
+    vb = rng.sample(range(50, 99), len(kb))
+    ga = {"name": "R0", "kind": "root", "cfw": ca, "cols": {"a": va, **{n: [t[i] for t in ka] for i, n in enumerate(li)}}}
+    gb = {"name": "R1", "kind": "root", "cfw": cb, "cols": {"b": vb, **{n: [t[i] for t in kb] for i, n in enumerate(ri)}}}
+    if orient == "AB":
+        link = {"jt": jt, "l": "R0", "r": "R1", "li": list(li), "ri": list(ri)}
+        cc = ca if consumer == "l" else cb
+    else:
+        link = {"jt": jt, "l": "R1", "r": "R0", "li": list(ri), "ri": list(li)}
+        cc = cb if consumer == "l" else ca
+    return {"groups": [ga, gb, {"name": "D1", "kind": "derived", "cfw": cc,
+                                "features": {"f1": {"inputs": ["a", "b"], "c0": 0, "coefs": [1, 1]}}}],
+            "request": ["f1"], "links": [link]}
+
+
 def gen_two_way(rng: random.Random, jt: str, same: bool, ca: str, cb: str, cc: str) -> Dict[str, Any]:
-    na, nb = rng.randrange(1, 5), rng.randrange(1, 5)
-    ka = rng.sample(range(1, 8), na)
-    kb = rng.sample(range(1, 8), nb)
-    kname = "k" if same else "j"
-    return {"groups": [{"name": "R0", "kind": "root", "cfw": ca, "cols": {"a": [rng.randrange(0, 50) for _ in ka], "k": ka}},
-                       {"name": "R1", "kind": "root", "cfw": cb, "cols": {"b": [rng.randrange(50, 99) for _ in kb], kname: kb}},
-                       {"name": "D1", "kind": "derived", "cfw": cc, "features": {"f1": {"inputs": ["a", "b"], "c0": 0, "coefs": [1, 1]}}}],
-            "request": ["f1"], "links": [{"jt": jt, "l": "R0", "r": "R1", "li": ["k"], "ri": [kname]}]}
+    """base matrix: single-column key k / j, unique non-null keys."""
+    ka, kb = gen_key_data(rng, 1, "unique")
+    spec = two_way(rng, jt, ["k"], ["k" if same else "j"], ka, kb, ca, cb)
+    spec["groups"][2]["cfw"] = cc
+    return spec
+
+
+def gen_multikey(rng: random.Random, jt: str, arity: int, cls: str, ca: str, cb: str, consumer: str,
+                 variant: str = "unique", orient: str = "AB", names: Optional[Tuple[List[str], List[str]]] = None,
+                 null_sides: str = "ab") -> Dict[str, Any]:
+    li, ri = names if names else gen_key_names(rng, arity, cls)
+    ka, kb = gen_key_data(rng, arity, variant, null_sides)
+    return two_way(rng, jt, li, ri, ka, kb, ca, cb, orient, consumer)
+
+
+def gen_orientation_family(rng: random.Random, jt: str, arity: int, cls: str, ca: str, cb: str) -> List[Dict[str, Any]]:
+    """the SAME two tables linked as Link(A,B) and as Link(B,A), consumer on the framework of each side."""
+    li, ri = gen_key_names(rng, arity, cls)
+    ka, kb = gen_key_data(rng, arity, "unique")
+    st = rng.getstate()
+    out = []
+    for orient in ("AB", "BA"):
+        for consumer in (("l",) if ca == cb else ("l", "r")):
+            rng.setstate(st)                      # same value columns in every member of the family
+            out.append(two_way(rng, jt, li, ri, ka, kb, ca, cb, orient, consumer))
+    return out
 
 
 def gen_inner_tree(rng: random.Random) -> Dict[str, Any]:
@@ -120,30 +363,109 @@ def gen_inner_tree(rng: random.Random) -> Dict[str, Any]:
     return {"groups": groups, "request": ["f1"], "links": links}
 
 
+def gen_left_star(rng: random.Random, jt1: str, jt2: str, cfw: str, arity: int, same_names: bool) -> Dict[str, Any]:
+    """star anchored at the left table: Link(jt1, A, B) on key 1, Link(jt2, A, C) on key 2, jt in {INNER, LEFT}; all three
+    sources and the consumer on one framework.  A carries both keys; unique keys in B and C, partial overlap with A."""
+    dom = list(range(1, 7)) if arity == 1 else [1, 2, 3]
+    universe = [tuple(t) for t in itertools.product(dom, repeat=arity)]
+    na = rng.randrange(3, 6)
+    k1a = [rng.choice(universe) for _ in range(na)]
+    k2a = [rng.choice(universe) for _ in range(na)]
+    kb = rng.sample(universe, rng.randrange(2, 5))
+    kc = rng.sample(universe, rng.randrange(2, 5))
+    if k1a[0] not in kb:                           # row 0 of A has a partner in B and in C: no empty (intermediate) result
+        kb[0] = k1a[0]
+    if k2a[0] not in kc:
+        kc[0] = k2a[0]
+    if same_names:
+        n1a = n1b = ["p0", "p1"][:arity]
+        n2a = n2c = ["q0", "q1"][:arity]
+    else:                                          # link 1: names permuted differently by sorting; link 2: equally
+        n1a, n1b = ["zone", "day"][:arity], ["area", "date"][:arity]
+        n2a, n2c = ["q0", "q1"][:arity], ["qc0", "qc1"][:arity]
+    cols_a: Dict[str, List[Any]] = {"v0": rng.sample(range(0, 30), na)}
+    for i, n in enumerate(n1a):
+        cols_a[n] = [t[i] for t in k1a]
+    for i, n in enumerate(n2a):
+        cols_a[n] = [t[i] for t in k2a]
+    cols_b: Dict[str, List[Any]] = {"v1": rng.sample(range(30, 60), len(kb))}
+    for i, n in enumerate(n1b):
+        cols_b[n] = [t[i] for t in kb]
+    cols_c: Dict[str, List[Any]] = {"v2": rng.sample(range(60, 90), len(kc))}
+    for i, n in enumerate(n2c):
+        cols_c[n] = [t[i] for t in kc]
+    groups = [{"name": "R0", "kind": "root", "cfw": cfw, "cols": cols_a},
+              {"name": "R1", "kind": "root", "cfw": cfw, "cols": cols_b},
+              {"name": "R2", "kind": "root", "cfw": cfw, "cols": cols_c},
+              {"name": "D1", "kind": "derived", "cfw": cfw,
+               "features": {"f1": {"inputs": ["v0", "v1", "v2"], "c0": 0, "coefs": [1, 1, 1]}}}]
+    links = [{"jt": jt1, "l": "R0", "r": "R1", "li": n1a, "ri": n1b},
+             {"jt": jt2, "l": "R0", "r": "R2", "li": n2a, "ri": n2c}]
+    return {"groups": groups, "request": ["f1"], "links": links}
+
+
+# ------------------------------------------------------------------------------------------------------------------
+# classification of a request
+# ------------------------------------------------------------------------------------------------------------------
 def kf_domain(spec: Dict[str, Any]) -> Optional[str]:
-    """Known-defect domain of a two-way request, decided on the request alone."""
+    """Known-defect domain of a request, decided on the request alone."""
     roots = [x for x in spec["groups"] if x["kind"] == "root"]
     if len(spec["links"]) != 1:
         if len({x["cfw"] for x in roots}) > 1:
             return "C05-multiway-join-across-frameworks"
+        cf = roots[0]["cfw"]
+        diff = [x for x in spec["links"] if x["li"] != x["ri"]]
+        if cf == "PythonDictFramework" and any(x["jt"] in ("LEFT", "OUTER") for x in diff):
+            return "C05-pydict-left-outer-different-key-names"
+        if cf == "PyArrowTable" and any(len(x["li"]) > 1 for x in diff):
+            return "C05-pyarrow-multikey-different-names-drops-right-keys"
         return None
     l = spec["links"][0]
     g = {x["name"]: x for x in spec["groups"]}
     ca, cb, cc = g[l["l"]]["cfw"], g[l["r"]]["cfw"], g["D1"]["cfw"]
     same = l["li"] == l["ri"]
+    multi = len(l["li"]) > 1
+    kl, kr = key_tuples(g[l["l"]], l["li"]), key_tuples(g[l["r"]], l["ri"])
     if l["jt"] == "RIGHT":
         return "C05-right-join-not-honoured"
-    if l["jt"] == "INNER" and "PythonDictFramework" in (ca, cb, cc) and not (set(g[l["l"]]["cols"][l["li"][0]]) & set(g[l["r"]]["cols"][l["ri"][0]])):
-        return "C05-pydict-empty-join-raises"
     if not same and (ca != cb and cc == cb):
         return "C05-different-key-names-consumer-on-right-framework"
+    if l["jt"] == "INNER" and "PythonDictFramework" in (ca, cb, cc) and not match_pairs(kl, kr, list(range(len(l["li"])))):
+        return "C05-pydict-empty-join-raises"
     if l["jt"] == "LEFT" and ca != cb and cc == cb:
         return "C05-left-join-roles-flipped-for-right-consumer"
     if not same and ca == "PythonDictFramework" and l["jt"] in ("LEFT", "OUTER"):
         return "C05-pydict-left-outer-different-key-names"
-    if not same and l["jt"] == "OUTER" and ca == "PyArrowTable":
+    if not same and not multi and l["jt"] == "OUTER" and ca == "PyArrowTable":
         return "C05-pyarrow-outer-different-key-names"
+    if not same and multi and cc == "PyArrowTable":
+        return "C05-pyarrow-multikey-different-names-drops-right-keys"
+    if cc == "PandasDataFrame" and any(v is None for t in kl + kr for v in t):
+        return "C05-pandas-null-keys-match"
     return None
+
+
+def shape_of(spec: Dict[str, Any]) -> str:
+    ls = spec["links"]
+    if len(ls) == 1:
+        return "two_way"
+    jts = sorted({l["jt"] for l in ls})
+    star = len({l["l"] for l in ls}) == 1
+    return f"{'star' if star else 'chain'}{len(ls) + 1}:{'+'.join(jts)}"
+
+
+def dims(spec: Dict[str, Any]) -> Dict[str, str]:
+    """the coverage dimensions of a request (evidence counters)."""
+    l = spec["links"][0]
+    g = {x["name"]: x for x in spec["groups"]}
+    cl, cr, cc = g[l["l"]]["cfw"], g[l["r"]]["cfw"], g["D1"]["cfw"]
+    return {"shape": shape_of(spec), "join_type": "+".join(sorted({x["jt"] for x in spec["links"]})),
+            "key_arity": str(max(len(x["li"]) for x in spec["links"])),
+            "name_class": "/".join(sorted({name_class(x["li"], x["ri"]) for x in spec["links"]})),
+            "data_variant": data_variant(spec),
+            "orientation": "Link(A,B)" if l["l"] == "R0" else "Link(B,A)",
+            "consumer_side": "one framework" if cl == cr else "left framework" if cc == cl else "right framework",
+            "frameworks": "same" if len({x.get("cfw") for x in spec["groups"]}) == 1 else "cross"}
 
 
 def one(spec: Dict[str, Any]) -> Dict[str, Any]:
@@ -173,6 +495,62 @@ def term(spec: Dict[str, Any], rows: List[Dict[str, Any]]) -> str:
     return f"(({ts}, {ls}, {orders}), {cq_table(rows)})"
 
 
+def build_specs(rng: random.Random, big: bool) -> Dict[str, List[Dict[str, Any]]]:
+    out: Dict[str, List[Dict[str, Any]]] = {"base": [], "multikey": [], "data": [], "orient": [], "trees": [], "stars": []}
+    reps = 6 if big else 1
+    fw_combos = [(ca, cb, side) for ca, cb in itertools.product(CF, CF) for side in (("l",) if ca == cb else ("l", "r"))]
+    # base matrix (single-column key)
+    for jt in ("INNER", "LEFT", "RIGHT", "OUTER"):
+        for same in (True, False):
+            for ca, cb in itertools.product(CF, CF):
+                for cc in sorted({ca, cb}):
+                    for _ in range(reps):
+                        out["base"].append(gen_two_way(rng, jt, same, ca, cb, cc))
+    # multi-column keys.  consumer on the link's left framework: full product; right framework (mostly inside recorded
+    # domains) and RIGHT links: sampled
+    for jt in ("INNER", "LEFT", "OUTER"):
+        for arity in (2, 3):
+            for cls in NAME_CLASSES:
+                for ca, cb, side in fw_combos:
+                    if side == "r" and not big and rng.random() < 0.5:
+                        continue
+                    for _ in range(reps if big or side == "r" else 2):
+                        out["multikey"].append(gen_multikey(rng, jt, arity, cls, ca, cb, side))
+    for arity in (2, 3):
+        for cls in NAME_CLASSES:
+            for ca, cb, side in (fw_combos if big else rng.sample(fw_combos, 3)):
+                out["multikey"].append(gen_multikey(rng, "RIGHT", arity, cls, ca, cb, side))
+    # the documentation-style example of the permuted class, on every framework pair
+    for jt in ("INNER", "LEFT", "OUTER"):
+        for ca, cb in itertools.product(CF, CF):
+            out["multikey"].append(gen_multikey(rng, jt, 2, "diff_permuted", ca, cb, "l", names=(["region", "day"], ["area", "date"])))
+    # duplicate / null keys: PyArrow and Pandas sources, INNER / LEFT, equal key names
+    for variant in ("dup", "null"):
+        for jt in ("INNER", "LEFT"):
+            for arity in (1, 2):
+                for ca, cb in itertools.product(CF[:2], CF[:2]):
+                    # a Pandas integer column with nulls is float64 and cannot be joined with an int64 Arrow key (the run
+                    # raises: key types differ, which is not the join's business): across frameworks only the PyArrow
+                    # source carries null keys
+                    ns = "ab" if ca == cb else "a" if ca == "PyArrowTable" else "b"
+                    for side in (("l",) if ca == cb else ("l", "r")):
+                        for _ in range(3 * reps):
+                            out["data"].append(gen_multikey(rng, jt, arity, "equal", ca, cb, side, variant=variant, null_sides=ns))
+    # link orientation families
+    for jt in ("INNER", "LEFT", "OUTER"):
+        for arity, cls in ((1, "equal"), (1, "diff"), (2, "equal"), (2, "diff_permuted"), (2, "mixed_same_perm"), (3, "diff_same_perm")):
+            pairs = list(itertools.product(CF, CF))
+            for ca, cb in (pairs if big else rng.sample(pairs, 4)):
+                out["orient"] += gen_orientation_family(rng, jt, arity, cls, ca, cb)
+    out["trees"] = [gen_inner_tree(rng) for _ in range(200 if big else 30)]
+    for _ in range(8 if big else 1):
+        for jt1, jt2 in itertools.product(("INNER", "LEFT"), repeat=2):
+            for cfw in CF:
+                for arity, same_names in ((1, True), (1, False), (2, True), (2, False)):
+                    out["stars"].append(gen_left_star(rng, jt1, jt2, cfw, arity, same_names))
+    return out
+
+
 def run(rep: vlib.Reporter, tier: str, seed: int) -> None:
     rng = random.Random(seed * 1049 + 5)
     install()
@@ -187,22 +565,17 @@ def run(rep: vlib.Reporter, tier: str, seed: int) -> None:
         "the planner (run_link, resolve_trekked_links, invert_link, fill_tfs_by_joinstep) and JoinStep._merge_data are NOT modelled: "
         "this check is end-to-end correspondence against the proved-consistent spec; merge kernels are C12's subject",
         "generated consumer groups record the rows handed to their calculation; known-defect domains are Python predicates on "
-        "the request (harness/c05.kf_domain)"]
+        "the request (harness/c05.kf_domain); the recorded deviations arrow_join (PyArrow key-column handling), null_match_join "
+        "(Pandas null keys) and flip_join (LEFT/RIGHT roles exchanged) are Gallina functions of the spec result defined in the "
+        "harness (EXTRA), not theorems; in their domains the observation must equal them or the spec"]
     big = tier == "thorough"
-    specs: List[Dict[str, Any]] = []
-    reps = 4 if big else 1
-    for jt in ("INNER", "LEFT", "RIGHT", "OUTER"):
-        for same in (True, False):
-            for ca, cb in itertools.product(CF, CF):
-                for cc in sorted({ca, cb}):
-                    for _ in range(reps):
-                        specs.append(gen_two_way(rng, jt, same, ca, cb, cc))
-    n_tree = 200 if big else 30
-    trees = [gen_inner_tree(rng) for _ in range(n_tree)]
+    groups = build_specs(rng, big)
+    specs = [s for k in ("base", "multikey", "data", "orient") for s in groups[k]]
+    trees = groups["trees"] + groups["stars"]
     recs = [one(s) for s in specs + trees]
     found = False
-    dist: Dict[str, Any] = {"two_way": len(specs), "trees": len(trees), "status": {}, "kf_domains": {}, "correct": 0,
-                            "correct_inside_kf": 0}
+    dist: Dict[str, Any] = {"two_way": len(specs), "trees": len(trees), "generated": {k: len(v) for k, v in groups.items()},
+                            "status": {}, "kf_domains": {}, "kf_outcome": {}, "correct": 0, "correct_inside_kf": 0}
     terms, idx = [], []
     for i, r in enumerate(recs):
         dist["status"][r["status"]] = dist["status"].get(r["status"], 0) + 1
@@ -211,18 +584,39 @@ def run(rep: vlib.Reporter, tier: str, seed: int) -> None:
             terms.append(term(r["spec"], r["rows"]))
     bad, info = vlib.run_cases("C05", "join", REQ, "chk_join", terms, extra_defs=EXTRA, case_type=CASE_TY, shard=60) if terms else ([], {})
     bad_set = {idx[k] for k in bad}
-    # order independence of the SPEC on the generated inner trees (theorem C05alg; evaluated here as a sanity check)
-    tree_terms = [term(r["spec"], []) for r in recs[len(specs):]]
+    # disagreements inside a domain whose defect is a function of the spec result: defect model or spec, nothing else
+    model_ok: set = set()
+    chk_of = {k: strict_model(recs[idx[k]]["spec"], kf_domain(recs[idx[k]]["spec"])) for k in bad}
+    for chk in sorted({c for c in chk_of.values() if c}):
+        sel = [k for k in bad if chk_of[k] == chk]
+        if sel:
+            still, _ = vlib.run_cases("C05", "kf_" + chk, REQ, chk, [terms[k] for k in sel], extra_defs=EXTRA, case_type=CASE_TY, shard=60)
+            model_ok |= {idx[k] for j, k in enumerate(sel) if j not in set(still)}
+    # order independence of the SPEC on the generated inner trees and pure INNER / pure LEFT stars (theorems of C05alg;
+    # evaluated here as a sanity check); mixed INNER+LEFT stars: counted, not a theorem
+    tree_terms = [term(s, []) for s in trees]
     bad_oi, _ = vlib.run_cases("C05", "orderind", REQ, "chk_order_independent", tree_terms, extra_defs=EXTRA, case_type=CASE_TY, shard=60)
-    for k in bad_oi[:3]:
-        rep.finding(f"spec-order:{json.dumps(trees[k], sort_keys=True)}", "rel_join over an inner-link tree depends on the application order "
-                    "(contradicts the associativity theorem)", {"kind": "spec", "spec": trees[k]})
+    dist["spec_order_dependent_mixed_stars"] = 0
+    for k in bad_oi:
+        if len({l["jt"] for l in trees[k]["links"]}) > 1:
+            dist["spec_order_dependent_mixed_stars"] += 1
+            continue
+        if found:
+            continue
+        rep.finding(f"spec-order:{json.dumps(trees[k], sort_keys=True)}", "rel_join over an inner-link tree / a left star depends on the "
+                    "application order (contradicts the associativity theorems)", {"kind": "spec", "spec": trees[k]})
         found = True
+    counters: Dict[str, Dict[str, int]] = {}
+    correct_by: Dict[str, Dict[str, int]] = {}
     for i, r in enumerate(recs):
         spec = r["spec"]
         dom = kf_domain(spec)
         if dom:
             dist["kf_domains"][dom] = dist["kf_domains"].get(dom, 0) + 1
+        d = dims(spec)
+        for k, v in d.items():
+            counters.setdefault(k, {})
+            counters[k][v] = counters[k].get(v, 0) + 1
         key = json.dumps(spec, sort_keys=True)
         rep.nontrivial(("spec", spec["links"], [g.get("cfw") for g in spec["groups"]], [g.get("cols") for g in spec["groups"] if g["kind"] == "root"]))
         wrong = None
@@ -234,26 +628,51 @@ def run(rep: vlib.Reporter, tier: str, seed: int) -> None:
             wrong = "the run did not terminate"
         elif r["status"] == "rejected" and not (spec["links"][0]["jt"] == "RIGHT" and len({g.get('cfw') for g in spec['groups']}) == 1):
             wrong = f"request rejected at prepare: {r['exc']}"
+        if dom:
+            oc = "equal to the specified join" if wrong is None and r["status"] == "ok" else "rejected (accepted rule)" if wrong is None \
+                else "equal to the recorded defect model" if i in model_ok else "other failure (raise / wrong rows)"
+            dist["kf_outcome"].setdefault(dom, {})
+            dist["kf_outcome"][dom][oc] = dist["kf_outcome"][dom].get(oc, 0) + 1
         if wrong is None:
             if r["status"] == "ok":
                 dist["correct"] += 1
                 dist["correct_inside_kf"] += bool(dom)
+                for k in ("key_arity", "name_class", "data_variant"):
+                    correct_by.setdefault(k, {})
+                    correct_by[k][d[k]] = correct_by[k].get(d[k], 0) + 1
             continue
-        replay = {"kind": "e2e", "spec": spec, "status": r["status"], "exc": r.get("exc"), "rows": r.get("rows")}
-        if dom:
+        replay = {"kind": "e2e", "spec": spec, "status": r["status"], "exc": r.get("exc"), "rows": r.get("rows"), "dims": d}
+        if strict_model(spec, dom) and i not in model_ok:
+            rep.finding(f"join:{key}", wrong + f" (request in domain {dom}, but the observation is neither the recorded defect nor the "
+                        "specified join)", replay)
+            found = True
+        elif dom in RAISE_PAT and not (r["status"] == "raised" and RAISE_PAT[dom] in str(r.get("exc"))):
+            rep.finding(f"join:{key}", wrong + f" (request in domain {dom}, but the failure is not the recorded one)", replay)
+            found = True
+        elif dom:
             rep.finding(dom, wrong, replay)
         else:
             rep.finding(f"join:{key}", wrong, replay)
             found = True
     rep.count(len(recs))
+    dist["dimensions"] = counters
+    dist["equal_to_spec_by_dimension"] = correct_by
     rep.add("distribution", dist)
-    rep.add("join_vs_spec", {**info, "cases": len(terms), "disagreements": len(bad)})
-    rep.add("rule", "two-way: {INNER, LEFT, RIGHT, OUTER} x {equal, different key names} x framework of left source x framework of "
-                    "right source x consumer framework (one of the two), PRNG tables of 1-4 rows with unique non-null integer keys; "
-                    "n-way: chains/stars of 3-4 sources joined by inner links on k. Every case is distinct by tables and configuration")
+    rep.add("join_vs_spec", {**info, "cases": len(terms), "disagreements": len(bad), "disagreements_equal_to_defect_model": len(model_ok)})
+    rep.add("rule", "two-way: {INNER, LEFT, RIGHT, OUTER} x key arity 1-3 x key-name class (equal / different / mixed; alphabetical "
+                    "order of the names permuting the sides equally / differently) x data variant (unique overlapping or disjoint, "
+                    "duplicate, null keys; multi-column tuples sensitive to every positional mis-pairing) x framework of left "
+                    "source x framework of right source x consumer framework (one of the two) x link orientation (Link(A,B) / "
+                    "Link(B,A) on the same tables); n-way: chains/stars of 3-4 sources joined by inner links on k, 3-source stars "
+                    "with INNER/LEFT mixes anchored at the left table. Every case is distinct by tables and configuration")
     ok = [r for r in recs if r["status"] == "ok" and r.get("rows")]
     if ok:
         rep.sample({"spec": ok[0]["spec"], "rows_received": ok[0]["rows"]})
+        for want in ("multikey", "stars"):
+            for r in ok:
+                if r["spec"] in groups[want] and kf_domain(r["spec"]) is None:
+                    rep.sample({"spec": r["spec"], "rows_received": r["rows"]})
+                    break
     if not pr.ok and not found:
         rep.finding("proof-broken", "Props/C05.v no longer checks",
                     {"failed_files": pr.failed_files, "forbidden": pr.forbidden, "log_tail": pr.log[-3000:]}, found_input=False)
@@ -262,6 +681,16 @@ def run(rep: vlib.Reporter, tier: str, seed: int) -> None:
 def replay(path: str) -> int:
     r = json.load(open(path))["replay"]
     install()
-    rec = one(r["spec"])
-    print(json.dumps({k: rec.get(k) for k in ("status", "exc", "rows")}, indent=1, default=str), "kf domain:", kf_domain(r["spec"]))
+    spec = r["spec"]
+    rec = one(spec)
+    dom = kf_domain(spec)
+    print(json.dumps({k: rec.get(k) for k in ("status", "exc", "rows")}, indent=1, default=str), "kf domain:", dom, "dims:", dims(spec))
+    if rec["status"] == "ok" and rec.get("rows") is not None:
+        t = [term(spec, rec["rows"])]
+        bad, _ = vlib.run_cases("C05", "replay", REQ, "chk_join", t, extra_defs=EXTRA, case_type=CASE_TY)
+        print("rows received = rel_join of the Links:", not bad)
+        chk = strict_model(spec, dom)
+        if bad and chk:
+            bad2, _ = vlib.run_cases("C05", "replay_kf", REQ, chk, t, extra_defs=EXTRA, case_type=CASE_TY)
+            print(f"rows received = recorded defect model ({chk}):", not bad2)
     return 0
